@@ -72,10 +72,40 @@ def select(harnesses, prop, tier, only=None):
 
 def set_limits(mem_gb):
     def f():
-        lim = int(mem_gb * (1 << 30))
-        resource.setrlimit(resource.RLIMIT_AS, (lim, lim))
         os.setsid()
     return f
+
+
+def cbmc_watchdog(pgid, mem_gb, stop, killed):
+    """RLIMIT_AS on `cargo kani` would also hit kani-driver (which buffers CBMC's JSON output and
+    dies with all results); instead every CBMC process of our process group is watched and
+    killed alone when its resident set exceeds the per-harness cap."""
+    import threading
+    page = os.sysconf("SC_PAGE_SIZE")
+    cap = mem_gb * (1 << 30)
+    while not stop.is_set():
+        try:
+            for pid in os.listdir("/proc"):
+                if not pid.isdigit():
+                    continue
+                try:
+                    st = open("/proc/%s/stat" % pid).read()
+                    comm = st[st.index("(") + 1:st.rindex(")")]
+                    if comm != "cbmc":
+                        continue
+                    rest = st[st.rindex(")") + 2:].split()
+                    if int(rest[2]) != pgid:
+                        continue
+                    rss = int(rest[21]) * page
+                    if rss > cap:
+                        os.kill(int(pid), 9)
+                        killed.append((int(pid), rss))
+                        log("watchdog: killed cbmc pid %s (rss %.1f GB > cap %d GB)" % (pid, rss / 2**30, mem_gb))
+                except (IOError, OSError, ValueError, IndexError):
+                    continue
+        except Exception:
+            pass
+        stop.wait(2.0)
 
 
 def run_kani(ov, target_dir, hs, tier_cfg, out_json, logfile, playback=False, jobs=None):
@@ -83,7 +113,7 @@ def run_kani(ov, target_dir, hs, tier_cfg, out_json, logfile, playback=False, jo
            "--output-format", "terse", "--exact"]
     for h in hs:
         cmd += ["--harness", full_name(h)]
-    timeout = max([h.timeout or tier_cfg["harness_timeout"] for h in hs])
+    timeout = tier_cfg.get("override_timeout") or max([h.timeout or tier_cfg["harness_timeout"] for h in hs])
     cmd += ["--harness-timeout", "%ds" % timeout]
     if playback:
         cmd += ["-Z", "concrete-playback", "--concrete-playback=print"]
@@ -99,9 +129,15 @@ def run_kani(ov, target_dir, hs, tier_cfg, out_json, logfile, playback=False, jo
     env.update(ov_mod.ENV_OFFLINE)
     env.pop("RUSTFLAGS", None)
     t0 = time.time()
+    import threading
+    stop = threading.Event()
+    killed = []
     with open(logfile, "w") as lf:
         p = subprocess.Popen(cmd, cwd=ov, env=env, stdout=lf, stderr=subprocess.STDOUT,
                              preexec_fn=set_limits(mem))
+        wd = threading.Thread(target=cbmc_watchdog, args=(p.pid, mem, stop, killed))
+        wd.daemon = True
+        wd.start()
         try:
             # waves of `jobs` harnesses, each at most `timeout`, plus build time
             waves = (len(hs) + max(1, (jobs or tier_cfg["jobs"])) - 1) // max(1, (jobs or tier_cfg["jobs"]))
@@ -112,6 +148,8 @@ def run_kani(ov, target_dir, hs, tier_cfg, out_json, logfile, playback=False, jo
             except Exception:
                 pass
             p.wait()
+        finally:
+            stop.set()
     return p.returncode, time.time() - t0, " ".join(cmd)
 
 
@@ -162,6 +200,7 @@ def main(argv=None):
     ap.add_argument("--only", action="append", help="substring filter on harness names (debugging)")
     ap.add_argument("--keep", action="store_true", help="keep the scratch overlay")
     ap.add_argument("--jobs", type=int)
+    ap.add_argument("--timeout", type=int, help="override the per-harness cap in seconds (debugging)")
     ap.add_argument("--list", action="store_true")
     ap.add_argument("--no-evidence", action="store_true")
     args = ap.parse_args(argv)
@@ -175,6 +214,9 @@ def main(argv=None):
                 for t in ("quick", "thorough"):
                     print(pid, t, " ".join(h.name for h in select(harnesses, pid, t)))
             return 0
+        if args.prop == "DEV":
+            args.no_evidence = True
+            return check(args)
         if not args.prop or args.prop not in PROPS:
             ap.error("property id C01..C20 required")
         return check(args)
@@ -188,10 +230,15 @@ def check(args):
     from evidence import write_evidence
     prop, tier = args.prop, args.tier
     tier_cfg = dict(TIERS[tier])
+    if args.timeout:
+        tier_cfg["override_timeout"] = args.timeout
     seed = int(os.environ.get("VERIF_SEED", "0") or 0)
     t_start = time.time()
     files, harnesses = ov_mod.parse_harness_files()
-    sel = select(harnesses, prop, tier, args.only)
+    if prop == "DEV":
+        sel = sorted([h for h in harnesses.values() if any(o in h.name for o in (args.only or []))], key=lambda h: h.name)
+    else:
+        sel = select(harnesses, prop, tier, args.only)
     if not sel:
         raise InfraError("no harness registered for %s at tier %s" % (prop, tier))
     random.Random(seed).shuffle(sel)
